@@ -53,6 +53,13 @@ def install_requests_shim():
     zigpy.util.Requests = Requests
 
 
+def ezsp_of(app):
+    """The EZSP object a ControllerApplication talks through, whatever the attribute holding it is called."""
+    import bellows.ezsp as ezsp_mod
+
+    return next((v for v in vars(app).values() if isinstance(v, ezsp_mod.EZSP)), None) or getattr(app, "_ezsp", None)
+
+
 def preformed_network(net: ncpmodel.NetState, pan_id=0x1A2B, channel=15, stale_tables=0):
     """Puts a stored coordinator network into the NCP model (as left by an earlier run)."""
     import bellows.types as t
